@@ -28,6 +28,9 @@ type c12Sel struct {
 	Prefs      []int // indices into c12U
 	Advertised int   // bit mask over c12U
 	Shuffle    int
+	// Empty selects how "no preference" is expressed when Prefs is empty: 0 nil, 1 an
+	// empty non-nil slice, 2 a longer slice resliced to length 0
+	Empty int `json:",omitempty"`
 }
 
 type c12Ans struct {
@@ -38,6 +41,9 @@ type c12Ans struct {
 	// into the nine AES suites); the proposal is then its first entry, found by
 	// discovery against a BMC advertising everything
 	List []int
+	// ZeroLen is a bit mask (1 authentication, 2 integrity, 4 confidentiality) of the
+	// answer's algorithm payloads whose length byte is 0 instead of 8
+	ZeroLen int `json:",omitempty"`
 }
 
 type c12Batch struct {
@@ -127,6 +133,10 @@ func c12Exec(run *ev.Run, c ev.Case) {
 			for i := b.From; i < b.To && i < len(lists); i++ {
 				for adv := 0; adv < 64; adv++ {
 					c12Select(run, c12Sel{Prefs: lists[i], Advertised: adv, Shuffle: int(b.Seed) + i + adv})
+					if len(lists[i]) == 0 {
+						c12Select(run, c12Sel{Prefs: lists[i], Advertised: adv, Shuffle: int(b.Seed) + i + adv, Empty: 1})
+						c12Select(run, c12Sel{Prefs: lists[i], Advertised: adv, Shuffle: int(b.Seed) + i + adv, Empty: 2})
+					}
 				}
 			}
 		case "ans-list":
@@ -164,6 +174,24 @@ func c12Exec(run *ev.Run, c ev.Case) {
 					}
 					c12Answer(run, c12Ans{Proposal: b.Proposal, Answer: a, Follow: true})
 					c12Answer(run, c12Ans{Proposal: b.Proposal, Answer: a, Follow: false})
+				}
+			}
+			// answers whose algorithm payloads are not the 8-byte form: a zero length byte (the
+			// request-side wildcard notation) with algorithm None, alone and in combination
+			for mask := 1; mask < 8; mask++ {
+				a := b.Proposal
+				if mask&1 != 0 {
+					a.Auth = 0
+				}
+				if mask&2 != 0 {
+					a.Integ = 0
+				}
+				if mask&4 != 0 {
+					a.Conf = 0
+				}
+				for _, follow := range []bool{true, false} {
+					c12Answer(run, c12Ans{Proposal: b.Proposal, Answer: a, Follow: follow, ZeroLen: mask})
+					c12Answer(run, c12Ans{Proposal: b.Proposal, Answer: a, Follow: follow, ZeroLen: 7})
 				}
 			}
 		case "ans-all":
@@ -239,6 +267,14 @@ func c12Select(run *ev.Run, s c12Sel) {
 	for _, i := range s.Prefs {
 		prefs = append(prefs, libSuite(c12U[i]))
 	}
+	if len(s.Prefs) == 0 {
+		switch s.Empty {
+		case 1:
+			prefs = []ipmi.CipherSuite{}
+		case 2:
+			prefs = []ipmi.CipherSuite{libSuite(c12U[3]), libSuite(c12U[2])}[:0]
+		}
+	}
 	// model
 	list := s.Prefs
 	if len(list) == 0 {
@@ -266,7 +302,7 @@ func c12Select(run *ev.Run, s c12Sel) {
 			CipherSuites: prefs,
 		})
 	})
-	desc := fmt.Sprintf("prefs %v advertised %06b", s.Prefs, s.Advertised)
+	desc := fmt.Sprintf("prefs %v (empty form %d) advertised %06b", s.Prefs, s.Empty, s.Advertised)
 	if pv != nil {
 		run.Violation("C12:panic:"+panicSite(st), fmt.Sprintf("NewV2Session panicked (%s): %v\n%s", desc, pv, trimStack(st)), cs, nil)
 		return
@@ -283,7 +319,7 @@ func c12Select(run *ev.Run, s c12Sel) {
 		}
 		run.Event(evn.Kind, 1)
 	}
-	run.Nontrivial(fmt.Sprintf("sel %v %d", s.Prefs, s.Advertised))
+	run.Nontrivial(fmt.Sprintf("sel %v %d %d", s.Prefs, s.Advertised, s.Empty))
 	if (disc > 0) != wantDiscovery {
 		run.Violation("C12:discovery-use", fmt.Sprintf("%s: %d Get Channel Cipher Suites requests, discovery expected: %v", desc, disc, wantDiscovery), cs, nil)
 		return
@@ -342,6 +378,11 @@ func c12Answer(run *ev.Run, a c12Ans) {
 		if len(req) > 5 && req[5]&0x3f == 0x10 && len(reply) == 52 && reply[17] == 0 {
 			m := append([]byte(nil), reply...)
 			m[32], m[40], m[48] = a.Answer.Auth, a.Answer.Integ, a.Answer.Conf
+			for axis, off := range []int{31, 39, 47} {
+				if a.ZeroLen&(1<<axis) != 0 {
+					m[off] = 0
+				}
+			}
 			if a.Follow && e.BMC.Sess != nil {
 				ok := refbmc.HashFor(a.Answer.Auth) != nil
 				if _, n := refbmc.IntegFor(a.Answer.Integ); n == 0 && a.Answer.Integ != 0 {
@@ -374,8 +415,8 @@ func c12Answer(run *ev.Run, a c12Ans) {
 			sess.GetDeviceID(c2)
 		}
 	})
-	desc := fmt.Sprintf("proposal %v (caller's list %v) answered %v (bmc follows: %v)", a.Proposal, a.List, a.Answer, a.Follow)
-	run.Nontrivial(fmt.Sprintf("ans %v %v %v %v", a.Proposal, a.Answer, a.Follow, a.List))
+	desc := fmt.Sprintf("proposal %v (caller's list %v) answered %v (bmc follows: %v, zero-length payload mask %d)", a.Proposal, a.List, a.Answer, a.Follow, a.ZeroLen)
+	run.Nontrivial(fmt.Sprintf("ans %v %v %v %v %d", a.Proposal, a.Answer, a.Follow, a.List, a.ZeroLen))
 	run.Event("handshakes", 1)
 	if pv != nil {
 		run.Violation("C12:panic:"+panicSite(st), fmt.Sprintf("%s: panic %v\n%s", desc, pv, trimStack(st)), cs, nil)
